@@ -13,6 +13,7 @@ theorem applyEffect_bal_frame (s s' : State) (e : Effect) (h : applyEffect s e =
   case debit x a n => exact absurd rfl (hd x a n)
   case credit x a n => exact absurd rfl (hc x a n)
   all_goals first
+    | (cases h; done)
     | (injection h with h; subst h; rfl)
     | (injection h with h; subst h; unfold updBridge; split <;> rfl)
     | (injection h with h; subst h; split <;> rfl)
